@@ -57,6 +57,16 @@ Definition go_set_nth {A} (site : string) (l : list A) (i : Z) (v : A) : res (li
   if ((i <? 0) || (go_len l <=? i))%Z then Panic site
   else Ok (firstn (Z.to_nat i) l ++ v :: skipn (S (Z.to_nat i)) l).
 
+(** floats travel as their IEEE bit patterns: x == 0 holds for +0 and -0 *)
+Definition go_f64_is_zero (b : N) : bool := (b =? 0) || (b =? 9223372036854775808).
+Definition go_f32_is_zero (b : N) : bool := (b =? 0) || (b =? 2147483648).
+(** binary.LittleEndian.PutUintNN into a whole NN/8-byte array, and UintNN (panics on a short slice) *)
+Fixpoint go_le_put (n : nat) (v : N) : bytes :=
+  match n with O => [] | S n' => (v mod 256) :: go_le_put n' (v / 256) end.
+Fixpoint go_le_val (l : bytes) : N := match l with [] => 0 | b :: r => b + 256 * go_le_val r end.
+Definition go_le_get (site : string) (n : nat) (l : bytes) : res N :=
+  if (go_len l <? Z.of_nat n)%Z then Panic site else Ok (go_le_val (firstn n l)).
+
 Definition go_binary_Uvarint (buf : bytes) : N * Z := read_varuint buf.
 Definition go_bits_Len64 (v : N) : Z := Z.of_N (N.size v).
 
